@@ -250,7 +250,7 @@ def run(ctx):
     ctx.cov['programs'] = len(placed)
     ctx.cov['disagreements_checked'] = rejected
     judge_negatives(ctx, placed, diags, negs, ndiags)
-    if len(placed) == 0:
+    if len(placed) == 0 and not ctx.violations:
         ctx.violation({'what': 'no schematic could be validated (every block failed to build or is out of scope)'}, found_input=False)
     if not r['ok'] and not ctx.violations:
         ctx.violation({'what': 'proof obligation no longer checks: %s in %s' % (r.get('lemma'), r.get('file')), 'coq_error': r.get('msg')}, found_input=False)
